@@ -610,11 +610,14 @@ fn session(ctx: &Ctx, idx: usize, id: String, kind: Kind) -> Case {
     let t = match r {
         Ok(Ok(t)) => {
             let dt = t.device_type() as u8;
-            c.step(line, format!("{} => ok version={} type={} cfglen={}", canon_trace(&tr0), ver, dt, size - 0x100));
+            // (which header registers the probe reads, and in which order, is not fixed by the property: the
+            // oracles below check that it writes nothing and reads only defined registers)
+            let _ = &tr0;
+            c.step(line, format!("=> ok version={} type={} cfglen={}", ver, dt, size - 0x100));
             t
         }
         other => {
-            c.step(line, format!("{} => unexpected", canon_trace(&tr0)));
+            c.step(line, "=> unexpected".to_string());
             c.fail(format!("probe of a valid header failed: {:?}", other.map(|r| r.map(|_| ()))));
             return c;
         }
@@ -686,7 +689,17 @@ fn session(ctx: &Ctx, idx: usize, id: String, kind: Kind) -> Case {
             page_size = None;
         }
         writes += trace.iter().filter(|a| a.write).count();
-        c.step(op.line(ver, via, &reads), format!("{} => {}", canon_trace(&trace), res));
+        // modern `queue_set`: the parameter writes between QueueSel and QueueReady form an unordered
+        // group (the property orders only "select first, ready last"; the legacy sequence page size,
+        // alignment, page frame number is ordered by the property and stays a sequence)
+        let tstr = match op {
+            Op::QueueSet { .. } if !legacy && trace.len() >= 3 => {
+                let all: Vec<String> = trace.iter().map(|a| canon_trace(std::slice::from_ref(a))).collect();
+                format!("{} {{ {} }} {}", all[0], all[1..all.len() - 1].join(" "), all[all.len() - 1])
+            }
+            _ => canon_trace(&trace),
+        };
+        c.step(op.line(ver, via, &reads), format!("{} => {}", tstr, res));
         if res == "stuck" {
             c.tag("stuck");
             stuck = true;
@@ -781,16 +794,16 @@ fn probe_case(size: usize, id: String) -> Case {
                     c.fail(format!("{}: drop did not write Status := 0 exactly once: [{}]", line, canon_trace(&d)));
                 }
                 c.nontrivial = true;
-                format!("{} => ok version={} type={} cfglen={}", canon_trace(&tr0), v, dt, size.wrapping_sub(0x100) as isize)
+                format!("=> ok version={} type={} cfglen={}", v, dt, size.wrapping_sub(0x100) as isize)
             }
             Ok(Err(e)) => {
                 accepted = false;
-                format!("{} => err {}", canon_trace(&tr0), err_str(&e))
+                format!("=> err {}", err_str(&e))
             }
             Err(p) => {
                 accepted = false;
                 c.fail(format!("{}: probe panicked: {}", line, p));
-                format!("{} => panic", canon_trace(&tr0))
+                "=> panic".to_string()
             }
         };
         // oracle (property text): accepts only correct magic, version 1 or 2, known non-zero type,
